@@ -330,7 +330,7 @@ def stage_apply_text(expr, sg, pr, alias=0):
                 "countsum": lambda: "[$m.count(), $m.sum(0)]"}[op[0]]()
         return "(let(m => %s%s) -> %s)" % (expr, ".memorize()" if memo else "", body)
     if k == "groupByAggP":
-        body = pipeline_text("$", list(sg[3])) + [".len()", ".sum(0)", ".first(null)", ".toList()"][sg[4]]
+        body = pipeline_text("$", list(sg[3])) + [".count()", ".sum(0)", ".first(null)", ".toList()"][sg[4]]
         agg = pr.wrap(body)
         return m("groupBy", lt(sg[1], pr), lt(sg[2] if sg[2] is not None else ("id",), pr), agg)
     if k == "groupByAgg":
